@@ -214,6 +214,25 @@ func objstoreReplay(args []string) error {
 					if err != nil || ok != st.Found {
 						bad("has/wrong", st.Found, ok, fmt.Sprint(err))
 					}
+				case "deldir":
+					// whatever the call answers, nothing may be lost
+					_ = s.Delete(ctx, key)
+					exp := make([]string, 0, len(st.Items))
+					for _, it := range st.Items {
+						exp = append(exp, joinKey(it))
+					}
+					got, _, err := scan(s, "", "", 1000, false)
+					if err != nil {
+						bad("list/error", exp, fmt.Sprint(err), "after deleting the prefix "+key)
+						return
+					}
+					if got == nil {
+						got = []string{}
+					}
+					if !vutil.EqStrings(exp, got) {
+						bad("deldir/"+strings.TrimPrefix(classifyList(exp, got, "", false), "list/nodelim/"), exp, got,
+							fmt.Sprintf("Delete(%q): no object has that name, it is only a prefix of stored keys", key))
+					}
 				case "scandel":
 					muts++
 					prefix := joinKey(st.Prefix)
